@@ -229,6 +229,12 @@ def r16_3(run):
         h = run.idx.find_method(mp, hn)
         ok = any(isinstance(n, ast.Assign) and isinstance(n.targets[0], ast.Subscript) and const(n.targets[0].slice) == key for n in walk_unit(h))
         run.ob('R16.3', h, h.node, '%s records %s of the current entry' % (hn, key), ok, slot='handler:%s' % hn, message='%s does not store %s' % (hn, key))
+    ra = run.idx.find_method(mp, '_router_address')
+    acc = any(isinstance(n, ast.Call) and callee_attr(n) in ('extend', 'append') and "'ip_v6'" in src(n) for n in walk_unit(ra)) or \
+        any(isinstance(n, ast.AugAssign) and "'ip_v6'" in src(n.target) for n in walk_unit(ra)) or \
+        any(isinstance(n, ast.Call) and callee_attr(n) == 'setdefault' and "'ip_v6'" in src(n) for n in walk_unit(ra))
+    run.ob('R16.3', ra, ra.node, 'every "a" line of an entry adds to its IPv6 addresses (a relay may have several)', acc, slot='a-lines-accumulate',
+           message='_router_address overwrites ip_v6 instead of accumulating: a relay with two "a" lines keeps only the last address')
     rb = run.idx.find_method(mp, '_router_begin')
     g = cfg_of(rb)
     first = [n for n in g.real_nodes() if n.kind == 'stmt' and not is_noise(n.ast)]
